@@ -694,13 +694,12 @@ def replay(case: dict) -> list[str]:
 # input features under which a clause is known to fail on the pinned tree: such cases are counted under
 # their own clause name '<clause>@<tags>' so that they neither hide nor crowd out the others
 # (tags of repaired findings - first-candidate>1, first-subregion>1, origin-region at the parent qualifiers,
-# prepeptide-post-origin - are still computed as a description of the case but no longer name a clause:
-# C12-F1..F4 are fixed in /repo, their cases are judged under the bare clause names again)
-_CONTENT_TAGS = ["origin-feature-outside", "numbers-not-contiguous", "whole-circle-region", "exons-span-region",
-                 "extract-order-differs", "frameshifted-gene-cut"]
+# prepeptide-post-origin, origin-feature-outside, exons-span-region - are still computed as a description of the
+# case but no longer name a clause: C12-F1..F4, F6, F9 are fixed in /repo (.., 85f7c167, b57beded); their cases
+# are judged under the bare clause names again and their predicates below cannot match any clause name)
+_CONTENT_TAGS = ["numbers-not-contiguous", "whole-circle-region", "extract-order-differs", "frameshifted-gene-cut"]
 _LOADING_TAGS = list(_CONTENT_TAGS)
 RELEVANT = {
-    "write-ok": ["origin-feature-outside"],
     "sequence": ["whole-circle-region"],
     "numbering-from-1": ["numbers-not-contiguous", "whole-circle-region"],
     "candidate-protocluster-refs": ["numbers-not-contiguous", "whole-circle-region"],
@@ -710,7 +709,7 @@ RELEVANT = {
     "reloads-one-region": _LOADING_TAGS,
     "reloaded-same-content": _LOADING_TAGS + ["parts-against-strand", "prepeptide-over-origin"],
     "reloaded-after-ref-repair": _CONTENT_TAGS + ["parts-against-strand", "prepeptide-over-origin"],
-    "features-same-bases": ["parts-against-strand", "origin-feature-outside", "whole-circle-region"],
+    "features-same-bases": ["parts-against-strand", "whole-circle-region"],
 }
 
 
